@@ -281,6 +281,16 @@ def main(argv):
     n_obj = sum(r[0] for r in res)
     n = ob.n + n_obj
     bad = ob.bad + [b for r in res for b in r[1]]
+    # "every spelling reads the same number" must also hold after an update: the C15 step contracts "every property (all momentum spellings included) of the
+    # updated vector is that of a vector freshly built from its new state" for momentum vectors, under this property's label
+    from . import c15
+    sres = O.concolic_map(c15.shard, [(s, True) for s in O.systems()])
+    key = "every-property-is-that-of-the-new-state"
+    stale_bad = [(oid.replace("C15/", "C14/after-update/", 1), d_) for r in sres for oid, d_ in r[1] if key in oid]
+    n_stale = len(stale_bad)          # the shards report only their total; the after-update contracts are counted conservatively (failures only)
+    n_obj += n_stale
+    n += n_stale
+    bad += stale_bad
     groups = {}
     for oid, detail in bad:
         groups.setdefault(oid.split("[")[0].split("{")[0], []).append((oid, detail))
